@@ -380,9 +380,9 @@ package ps
 // ---- untrusted inputs at the signing-request and proof-verification entry points (C10): no panic whatever the bytes; ----
 // ---- verifying and signing are side-effect free (C09): none of these functions changes a group or field element, a slice or
 // ---- a struct that existed before the call (their arguments, the proof, the key, the public parameters)
-//@ spec macro ppOK(pp PP) bool = pp.c != nil && pp.c.GenG1 != nil && pp.c.GenG2 != nil && pp.c.GroupOrder != nil && pp.g != nil && pp.g0 != nil && pp.g2 != nil && pp.g2Inverse != nil &&
+//@ spec macro paramsOK(pp PP) bool = pp.c != nil && pp.c.GenG1 != nil && pp.c.GenG2 != nil && pp.c.GroupOrder != nil && pp.g != nil && pp.g0 != nil && pp.g2 != nil && pp.g2Inverse != nil &&
 //@                               len(pp.gs) >= 1 && forall i int :: { pp.gs[i] } 0 <= i && i < len(pp.gs) ==> pp.gs[i] != nil
-//@ spec macro ppOKp(pp *PP) bool = pp != nil && pp.c != nil && pp.c.GenG1 != nil && pp.c.GenG2 != nil && pp.c.GroupOrder != nil && pp.g != nil && pp.g0 != nil && pp.g2 != nil && pp.g2Inverse != nil &&
+//@ spec macro paramsOKp(pp *PP) bool = pp != nil && pp.c != nil && pp.c.GenG1 != nil && pp.c.GenG2 != nil && pp.c.GroupOrder != nil && pp.g != nil && pp.g0 != nil && pp.g2 != nil && pp.g2Inverse != nil &&
 //@                               len(pp.gs) >= 1 && forall i int :: { pp.gs[i] } 0 <= i && i < len(pp.gs) ==> pp.gs[i] != nil
 //@ spec macro pkOK(pk PK) bool = pk.X != nil && forall i int :: { pk.Y[i] } 0 <= i && i < len(pk.Y) ==> pk.Y[i] != nil
 //@ spec macro psiOK(q *PoKofSignaturePoCorrectForm) bool = q.y != nil && q.Γ != nil && q.Φ != nil && forall i int :: { q.x[i] } 0 <= i && i < len(q.x) ==> q.x[i] != nil
@@ -392,7 +392,7 @@ package ps
 //@
 //@ func (*Verifier).Verify
 //@   props C10
-//@   requires v.c != nil && ppOK(v.pp) && pkOK(v.tpk)
+//@   requires v.c != nil && paramsOK(v.pp) && pkOK(v.tpk)
 //@
 //@ func (*SigPoK).fromBytes
 //@   props C10
@@ -410,7 +410,7 @@ package ps
 //@
 //@ func (*SigPoK).Verify
 //@   props C09 C10
-//@   requires [params] ppOKp(pp)
+//@   requires [params] paramsOKp(pp)
 //@   requires [key]    pkOK(pk)
 //@   requires [proof]  sigPoK.hε != nil && sigPoK.hPrimeε != nil && sigPoK.ν != nil && sigPoK.κ != nil &&
 //@                     sigPoK.ψ.y != nil && sigPoK.ψ.Γ != nil && sigPoK.ψ.Φ != nil && allZr(sigPoK.ψ.x)
@@ -440,7 +440,7 @@ package ps
 //@ // the signing entry point: msg comes from an untrusted client
 //@ func (*TPS).Sign
 //@   props C10
-//@   requires tps.Curve != nil && ppOK(tps.pp) && skOK(tps.sk, len(tps.pp.gs))
+//@   requires tps.Curve != nil && paramsOK(tps.pp) && skOK(tps.sk, len(tps.pp.gs))
 //@
 //@ func (*BlindSignature).fromBytes
 //@   props C10
@@ -485,7 +485,7 @@ package ps
 //@
 //@ func SignBlindSignature
 //@   props C09 C10
-//@   requires ppOKp(pp) && bsOK(σ) && skOK(sk, len(pp.gs))
+//@   requires paramsOKp(pp) && bsOK(σ) && skOK(sk, len(pp.gs))
 //@   modifies nothing
 //@   ensures [signature] result.1 == nil ==> result.0 != nil && result.0.a != nil && result.0.b != nil
 //@   loop 0: invariant 0 <= i && a != nil
